@@ -28,6 +28,9 @@ func coreC17(tier string) []RunSpec {
 	for k := 0; k < 6; k++ {
 		out = append(out, RunSpec{Profile: "core:rotation-then-reload", Params: map[string]int{"scenario": 4, "fee": k % 3, "mints": 1, "k": k}})
 	}
+	for k := 0; k < 8; k++ {
+		out = append(out, RunSpec{Profile: "core:mixed-keysets-same-fee", Params: map[string]int{"scenario": 5, "fee": 1, "mints": 1, "k": k}})
+	}
 	for k := 0; k < 4; k++ {
 		out = append(out, RunSpec{Profile: "core:melt-pending-past-expiry", Params: map[string]int{"scenario": 3, "fee": k % 3, "mints": 1, "k": k}})
 	}
@@ -109,7 +112,10 @@ func runC17(rc *RunCtx) {
 		for i, k := range seq {
 			ww.step = i
 			for idx, name := range wwKinds {
-				if name == k {
+				if name == k && k == "rotate" && rc.P("k", 0) < 3 {
+					// the new keyset keeps the old fee rate (fractional fees of two keysets in one transaction)
+					ww.StepRotate([]uint64{uint64(c17Fees[fi])})
+				} else if name == k {
 					ww.Step(idx)
 				}
 			}
@@ -118,6 +124,34 @@ func runC17(rc *RunCtx) {
 		ww.Settle()
 		ww.CheckWallets("settled")
 		rc.S.Probe("c17_rotation_then_reload")
+		rc.Nontrivial = true
+		return
+	}
+	if rc.P("scenario", 0) == 5 {
+		// every wallet holds proofs of two keysets with the same fractional fee rate, and nearly whole
+		// balances change hands: each transaction mixes both keysets (the fee is rounded once per transaction)
+		for i, w := range ww.Wallets {
+			ww.step = i
+			ww.mintInto(w, uint64(37+i))
+		}
+		ww.StepRotate([]uint64{uint64(c17Fees[fi])})
+		for i, w := range ww.Wallets {
+			ww.step = 10 + i
+			ww.mintInto(w, uint64(21+2*i))
+			ww.CheckWallets("step")
+		}
+		for i := 0; i < 6; i++ {
+			ww.step = 20 + i
+			ww.forceSendAll = true
+			ww.StepSend()
+			ww.forceSendAll = false
+			ww.CheckWallets("step")
+			ww.StepReceive()
+			ww.CheckWallets("step")
+		}
+		ww.Settle()
+		ww.CheckWallets("settled")
+		rc.S.Probe("c17_mixed_keysets_same_fee")
 		rc.Nontrivial = true
 		return
 	}
